@@ -1,1 +1,882 @@
 // Kani harnesses compiled inside rs-matter/src/cert.rs (module `verif_kani`).
+
+pub(crate) mod c19 {
+    use super::*;
+    use crate::crypto::backend::dummy::DummyCrypto;
+    use crate::crypto::{
+        CanonEcPointRef, CanonEcScalarRef, CanonPkcPublicKeyRef, CanonPkcSecretKeyRef,
+        CanonUint320Ref, CryptoSensitive, CryptoSensitiveRef, PKC_CANON_PUBLIC_KEY_LEN,
+        PKC_CANON_SECRET_KEY_LEN, PKC_SHARED_SECRET_LEN, PKC_SIGNATURE_LEN,
+    };
+    use core::cell::Cell;
+
+    // ---------------------------------------------------------------------------------------------
+    // Parsed form of a certificate
+    // ---------------------------------------------------------------------------------------------
+
+    /// Length of the parsed form. Also the length of a canonical public key, so that `pubkey()` can
+    /// hand out the record itself: byte 0 (the certificate's identity) is then byte 0 of the key, of
+    /// the signature and of the to-be-signed encoding, which is how the mock primitive knows whose
+    /// key / signature / TBS it was given.
+    pub(crate) const PF_LEN: usize = 65;
+
+    /// Outcome of every accessor of one certificate. `None` at the outer level = the accessor fails.
+    #[derive(Clone, Copy)]
+    pub(crate) struct Parsed {
+        /// identity of the certificate inside a harness (0 = leaf, 1 = intermediate, 2 = root)
+        pub(crate) id: u8,
+        /// `has_critical_future_extension`
+        pub(crate) crit: Option<bool>,
+        /// `cert_type`: 0 = NOC, 1 = ICAC, 2 = RCAC
+        pub(crate) ctype: Option<u8>,
+        /// `key_usage`: inner `None` = extension absent
+        pub(crate) key_usage: Option<Option<u16>>,
+        /// `basic_constraints`: inner `None` = extension absent; `(cA, pathLenConstraint)`
+        pub(crate) basic: Option<Option<(bool, Option<u8>)>>,
+        /// extended key usage: inner `None` = extension absent; bit `n` set = purpose `n` listed
+        pub(crate) eku: Option<Option<u8>>,
+        /// subject key identifier (`None` = absent or unreadable)
+        pub(crate) skid: Option<u64>,
+        /// authority key identifier: outer `None` = extensions unreadable, inner `None` = absent
+        pub(crate) akid: Option<Option<u64>>,
+        pub(crate) not_before: Option<u32>,
+        pub(crate) not_after: Option<u32>,
+        /// `as_asn1`: `Some(n)` = the TBS encodes (its length is derived from `n`), `None` = it does not
+        pub(crate) tbs: Option<u8>,
+        /// `pubkey`: `Some(true)` = present with the canonical length, `Some(false)` = wrong length
+        pub(crate) pubkey: Option<bool>,
+        /// `signature`: same convention
+        pub(crate) sig: Option<bool>,
+        /// `get_fabric_id` / `get_node_id` (used by the C01 harnesses)
+        pub(crate) fabric_id: Option<u64>,
+        pub(crate) node_id: Option<u64>,
+    }
+
+    const NOC: u8 = 0;
+
+    fn rd_u64(raw: &[u8], o: usize) -> u64 {
+        (rd_u32(raw, o) as u64) | (rd_u32(raw, o + 4) as u64) << 32
+    }
+
+    fn rd_u32(raw: &[u8], o: usize) -> u32 {
+        (raw[o] as u32) | (raw[o + 1] as u32) << 8 | (raw[o + 2] as u32) << 16 | (raw[o + 3] as u32) << 24
+    }
+
+    /// Tag byte convention: 0 = accessor fails, 1 = value absent / `false`, anything else = present / `true`.
+    pub(crate) fn parse(raw: &[u8]) -> Parsed {
+        Parsed {
+            id: raw[0],
+            crit: match raw[1] { 0 => None, 1 => Some(false), _ => Some(true) },
+            ctype: if raw[2] < 3 { Some(raw[2]) } else { None },
+            key_usage: match raw[3] {
+                0 => None,
+                1 => Some(None),
+                _ => Some(Some(raw[4] as u16 | (raw[5] as u16) << 8)),
+            },
+            basic: match raw[6] {
+                0 => None,
+                1 => Some(None),
+                _ => Some(Some((raw[7] & 1 == 1, if raw[8] == 0 { None } else { Some(raw[9]) }))),
+            },
+            eku: match raw[10] { 0 => None, 1 => Some(None), _ => Some(Some(raw[11])) },
+            skid: if raw[12] == 0 { None } else { Some(rd_u64(raw, 13)) },
+            akid: match raw[21] { 0 => None, 1 => Some(None), _ => Some(Some(rd_u64(raw, 22))) },
+            not_before: if raw[30] == 0 { None } else { Some(rd_u32(raw, 31)) },
+            not_after: if raw[35] == 0 { None } else { Some(rd_u32(raw, 36)) },
+            tbs: if raw[40] == 0 { None } else { Some(raw[41]) },
+            pubkey: match raw[42] { 0 => None, 1 => Some(false), _ => Some(true) },
+            sig: match raw[43] { 0 => None, 1 => Some(false), _ => Some(true) },
+            fabric_id: if raw[44] == 0 { None } else { Some(rd_u64(raw, 45)) },
+            node_id: if raw[53] == 0 { None } else { Some(rd_u64(raw, 54)) },
+        }
+    }
+
+    /// An arbitrary certificate with identity `id`.
+    pub(crate) fn any_pf(id: u8) -> [u8; PF_LEN] {
+        let mut raw: [u8; PF_LEN] = kani::any();
+        raw[0] = id;
+        raw
+    }
+
+    fn pf(this: &CertRef<'_>) -> Parsed {
+        parse(this.0.raw_data())
+    }
+
+    fn err<T>() -> Result<T, Error> {
+        Err(ErrorCode::InvalidData.into())
+    }
+
+    // ---------------------------------------------------------------------------------------------
+    // Accessor stubs (trusted layer: they only hand out the recorded outcome)
+    // ---------------------------------------------------------------------------------------------
+
+    pub(crate) fn pf_has_critical_future_extension<'a>(this: &CertRef<'a>) -> Result<bool, Error>
+    where
+        'a: 'a,
+    {
+        match pf(this).crit { Some(b) => Ok(b), None => err() }
+    }
+
+    pub(crate) fn pf_cert_type<'a>(this: &CertRef<'a>) -> Result<MatterCertType, Error>
+    where
+        'a: 'a,
+    {
+        match pf(this).ctype {
+            Some(0) => Ok(MatterCertType::Noc),
+            Some(1) => Ok(MatterCertType::Icac),
+            Some(_) => Ok(MatterCertType::Rcac),
+            None => err(),
+        }
+    }
+
+    pub(crate) fn pf_key_usage<'a>(this: &CertRef<'a>) -> Result<Option<u16>, Error>
+    where
+        'a: 'a,
+    {
+        match pf(this).key_usage { Some(v) => Ok(v), None => err() }
+    }
+
+    pub(crate) fn pf_basic_constraints<'a>(this: &CertRef<'a>) -> Result<Option<(bool, Option<u8>)>, Error>
+    where
+        'a: 'a,
+    {
+        match pf(this).basic { Some(v) => Ok(v), None => err() }
+    }
+
+    /// The extension is a *set* of purposes; the answer is computed for whatever the caller asks for, so
+    /// a caller asking for fewer purposes than the statement prescribes is caught by the oracle.
+    pub(crate) fn pf_ext_key_usage_has_all<'a>(this: &CertRef<'a>, required: &[u8]) -> Result<bool, Error>
+    where
+        'a: 'a,
+    {
+        match pf(this).eku {
+            None => err(),
+            Some(None) => Ok(false),
+            Some(Some(mask)) => {
+                let mut all = true;
+                for need in required {
+                    if *need >= 8 || mask & (1u8 << *need) == 0 {
+                        all = false;
+                    }
+                }
+                Ok(all)
+            }
+        }
+    }
+
+    pub(crate) fn pf_is_authority<'a>(this: &CertRef<'a>, their: &CertRef<'_>) -> Result<bool, Error>
+    where
+        'a: 'a,
+    {
+        let Some(their_subject) = pf(their).skid else { return err() };
+        match pf(this).akid {
+            None => err(),
+            Some(None) => Ok(false),
+            Some(Some(a)) => Ok(a == their_subject),
+        }
+    }
+
+    pub(crate) fn pf_not_before<'a>(this: &CertRef<'a>) -> Result<u32, Error>
+    where
+        'a: 'a,
+    {
+        match pf(this).not_before { Some(v) => Ok(v), None => err() }
+    }
+
+    pub(crate) fn pf_not_after<'a>(this: &CertRef<'a>) -> Result<u32, Error>
+    where
+        'a: 'a,
+    {
+        match pf(this).not_after { Some(v) => Ok(v), None => err() }
+    }
+
+    /// The TBS encoding of certificate `id` is some non-empty byte string starting with `id`.
+    pub(crate) fn pf_as_asn1<'a>(this: &CertRef<'a>, buf: &mut [u8]) -> Result<usize, Error>
+    where
+        'a: 'a,
+    {
+        let p = pf(this);
+        match p.tbs {
+            Some(n) if !buf.is_empty() => {
+                buf[0] = p.id;
+                Ok(1 + (n as usize) % buf.len())
+            }
+            _ => err(),
+        }
+    }
+
+    pub(crate) fn pf_pubkey<'a, 's>(this: &'s CertRef<'a>) -> Result<&'s [u8], Error>
+    where
+        'a: 'a,
+    {
+        let raw = this.0.raw_data();
+        match pf(this).pubkey {
+            None => err(),
+            Some(true) => Ok(&raw[..PKC_CANON_PUBLIC_KEY_LEN]),
+            Some(false) => Ok(&raw[..PKC_CANON_PUBLIC_KEY_LEN - 1]),
+        }
+    }
+
+    pub(crate) fn pf_signature<'a, 's>(this: &'s CertRef<'a>) -> Result<&'s [u8], Error>
+    where
+        'a: 'a,
+    {
+        let raw = this.0.raw_data();
+        match pf(this).sig {
+            None => err(),
+            Some(true) => Ok(&raw[..PKC_SIGNATURE_LEN]),
+            Some(false) => Ok(&raw[..PKC_SIGNATURE_LEN - 1]),
+        }
+    }
+
+    pub(crate) fn pf_get_fabric_id<'a>(this: &CertRef<'a>) -> Result<u64, Error>
+    where
+        'a: 'a,
+    {
+        match pf(this).fabric_id { Some(v) => Ok(v), None => Err(ErrorCode::NoFabricId.into()) }
+    }
+
+    pub(crate) fn pf_get_node_id<'a>(this: &CertRef<'a>) -> Result<u64, Error>
+    where
+        'a: 'a,
+    {
+        match pf(this).node_id { Some(v) => Ok(v), None => Err(ErrorCode::NoNodeId.into()) }
+    }
+
+    // ---------------------------------------------------------------------------------------------
+    // Mock primitive: importing a key and verifying a signature have arbitrary outcomes
+    // ---------------------------------------------------------------------------------------------
+
+    pub(crate) const NCERT: usize = 3;
+
+    pub(crate) struct MockCrypto {
+        /// importing the public key of certificate `j` succeeds
+        pub(crate) import_ok: [bool; NCERT],
+        /// `verify[i][j]`: outcome of verifying (TBS of `i`, signature of `i`) under the key of `j`
+        pub(crate) verify: [[Option<bool>; NCERT]; NCERT],
+        /// number of `verify` calls and their arguments `(TBS owner, signature owner, key owner)`
+        pub(crate) calls: Cell<u8>,
+        pub(crate) log: Cell<[(u8, u8, u8); 4]>,
+    }
+
+    impl MockCrypto {
+        pub(crate) fn any() -> Self {
+            Self {
+                import_ok: kani::any(),
+                verify: kani::any(),
+                calls: Cell::new(0),
+                log: Cell::new([(0xff, 0xff, 0xff); 4]),
+            }
+        }
+    }
+
+    pub(crate) struct MockKey<'a> {
+        owner: &'a MockCrypto,
+        id: u8,
+    }
+
+    pub(crate) struct MockSecret<'a>(core::marker::PhantomData<&'a ()>);
+
+    impl Crypto for MockCrypto {
+        type Rand<'a> = DummyCrypto where Self: 'a;
+        type WeakRand<'a> = DummyCrypto where Self: 'a;
+        type Hash<'a> = DummyCrypto where Self: 'a;
+        type Hash1<'a> = DummyCrypto where Self: 'a;
+        type Hmac<'a> = DummyCrypto where Self: 'a;
+        type Kdf<'a> = DummyCrypto where Self: 'a;
+        type PbKdf<'a> = DummyCrypto where Self: 'a;
+        type Aead<'a> = DummyCrypto where Self: 'a;
+        type PublicKey<'a> = MockKey<'a> where Self: 'a;
+        type SecretKey<'a> = MockSecret<'a> where Self: 'a;
+        type SigningSecretKey<'a> = MockSecret<'a> where Self: 'a;
+        type EcScalar<'a> = DummyCrypto where Self: 'a;
+        type EcPoint<'a> = DummyCrypto where Self: 'a;
+
+        fn rand(&self) -> Result<Self::Rand<'_>, Error> { unimplemented!() }
+        fn weak_rand(&self) -> Result<Self::WeakRand<'_>, Error> { unimplemented!() }
+        fn hash(&self) -> Result<Self::Hash<'_>, Error> { unimplemented!() }
+        fn hash1(&self) -> Result<Self::Hash1<'_>, Error> { unimplemented!() }
+        fn hmac<const KEY_LEN: usize>(&self, _key: CryptoSensitiveRef<'_, KEY_LEN>) -> Result<Self::Hmac<'_>, Error> { unimplemented!() }
+        fn kdf(&self) -> Result<Self::Kdf<'_>, Error> { unimplemented!() }
+        fn pbkdf(&self) -> Result<Self::PbKdf<'_>, Error> { unimplemented!() }
+        fn aead(&self) -> Result<Self::Aead<'_>, Error> { unimplemented!() }
+
+        fn pub_key(&self, key: CanonPkcPublicKeyRef<'_>) -> Result<Self::PublicKey<'_>, Error> {
+            let id = key.access()[0];
+            if self.import_ok[id as usize] {
+                Ok(MockKey { owner: self, id })
+            } else {
+                err()
+            }
+        }
+
+        fn secret_key(&self, _key: CanonPkcSecretKeyRef<'_>) -> Result<Self::SecretKey<'_>, Error> { unimplemented!() }
+        fn generate_secret_key(&self) -> Result<Self::SecretKey<'_>, Error> { unimplemented!() }
+        fn singleton_singing_secret_key(&self) -> Result<Self::SigningSecretKey<'_>, Error> { unimplemented!() }
+        fn ec_scalar(&self, _scalar: CanonEcScalarRef<'_>) -> Result<Self::EcScalar<'_>, Error> { unimplemented!() }
+        fn ec_scalar_mod_p(&self, _uint: CanonUint320Ref<'_>) -> Result<Self::EcScalar<'_>, Error> { unimplemented!() }
+        fn generate_ec_scalar(&self) -> Result<Self::EcScalar<'_>, Error> { unimplemented!() }
+        fn ec_point(&self, _point: CanonEcPointRef<'_>) -> Result<Self::EcPoint<'_>, Error> { unimplemented!() }
+        fn ec_generator_point(&self) -> Result<Self::EcPoint<'_>, Error> { unimplemented!() }
+    }
+
+    impl<'a> PublicKey<'a, PKC_CANON_PUBLIC_KEY_LEN, PKC_SIGNATURE_LEN> for MockKey<'a> {
+        fn verify(&self, data: &[u8], signature: CryptoSensitiveRef<PKC_SIGNATURE_LEN>) -> Result<bool, Error> {
+            let tbs_of = data[0];
+            let sig_of = signature.access()[0];
+            let n = self.owner.calls.get();
+            let mut log = self.owner.log.get();
+            if (n as usize) < log.len() {
+                log[n as usize] = (tbs_of, sig_of, self.id);
+            }
+            self.owner.log.set(log);
+            self.owner.calls.set(n.saturating_add(1));
+            match self.owner.verify[tbs_of as usize][self.id as usize] {
+                Some(b) => Ok(b),
+                None => err(),
+            }
+        }
+
+        fn write_canon(&self, _key: &mut CryptoSensitive<PKC_CANON_PUBLIC_KEY_LEN>) -> Result<(), Error> { unimplemented!() }
+    }
+
+    impl<'a> crate::crypto::SigningSecretKey<'a, PKC_CANON_PUBLIC_KEY_LEN, PKC_SIGNATURE_LEN> for MockSecret<'a> {
+        type PublicKey<'s> = MockKey<'s> where Self: 's;
+
+        fn csr<'s>(&self, _buf: &'s mut [u8]) -> Result<&'s [u8], Error> { unimplemented!() }
+        fn pub_key(&self) -> Result<Self::PublicKey<'a>, Error> { unimplemented!() }
+        fn sign(&self, _data: &[u8], _signature: &mut CryptoSensitive<PKC_SIGNATURE_LEN>) -> Result<(), Error> { unimplemented!() }
+    }
+
+    impl<'a> crate::crypto::SecretKey<'a, PKC_CANON_SECRET_KEY_LEN, PKC_CANON_PUBLIC_KEY_LEN, PKC_SIGNATURE_LEN, PKC_SHARED_SECRET_LEN>
+        for MockSecret<'a>
+    {
+        fn derive_shared_secret(&self, _peer: &Self::PublicKey<'a>, _out: &mut CryptoSensitive<PKC_SHARED_SECRET_LEN>) -> Result<(), Error> { unimplemented!() }
+        fn write_canon(&self, _key: &mut CryptoSensitive<PKC_CANON_SECRET_KEY_LEN>) -> Result<(), Error> { unimplemented!() }
+    }
+
+    // The clock. `UtcTime::{any_secs, reliable_secs}` (microseconds -> seconds, a 64-bit division that the
+    // SAT back end cannot afford three times per step) are replaced by their contract: the variant is kept,
+    // the number of seconds is the arbitrary value `NOW_SECS` (assumed contract, see the note above `c19_chain_contract`).
+    static mut NOW_SECS: u64 = 0;
+
+    pub(crate) fn now_secs() -> u64 {
+        unsafe { NOW_SECS }
+    }
+
+    pub(crate) fn secs_any(_this: &UtcTime) -> u64 {
+        now_secs()
+    }
+
+    pub(crate) fn secs_reliable(this: &UtcTime) -> Option<u64> {
+        match this {
+            UtcTime::Reliable(_) => Some(now_secs()),
+            UtcTime::LastKnown(_) => None,
+        }
+    }
+
+    /// An arbitrary clock reading: reliable or last-known-good, any number of seconds.
+    pub(crate) fn any_time() -> UtcTime {
+        let secs: u64 = kani::any();
+        unsafe { NOW_SECS = secs };
+        if kani::any() {
+            UtcTime::Reliable(kani::any())
+        } else {
+            UtcTime::LastKnown(kani::any())
+        }
+    }
+
+    // ---------------------------------------------------------------------------------------------
+    // Reference predicates, from the statement of C19
+    // ---------------------------------------------------------------------------------------------
+
+    /// Position of a certificate in the path that is being validated.
+    #[derive(Clone, Copy)]
+    pub(crate) enum Pos {
+        /// the certificate the chain is about (an authority follows it)
+        Leaf,
+        /// an authority with `below` intermediate CA certificates between it and the leaf
+        Authority { below: u8 },
+        /// a root validated on its own (AddTrustedRootCertificate): nothing below it
+        LoneRoot,
+    }
+
+    /// "the leaf is a non-CA certificate with the prescribed key usages, the authorities are CA certificates
+    /// within their path-length limit, no unknown critical extension is present"
+    pub(crate) fn profile_ok(p: &Parsed, pos: Pos) -> bool {
+        // no unknown critical extension (and that must be known, not assumed)
+        if p.crit != Some(false) {
+            return false;
+        }
+        let (Some(ty), Some(Some(ku)), Some(Some((is_ca, path_len)))) = (p.ctype, p.key_usage, p.basic) else {
+            return false;
+        };
+        match pos {
+            // a NOC (it carries a node id), cA = FALSE, digitalSignature, EKU contains serverAuth(1) and clientAuth(2)
+            Pos::Leaf => {
+                ty == NOC && !is_ca && ku & 0x0001 != 0 && matches!(p.eku, Some(Some(m)) if m & 0b0000_0110 == 0b0000_0110)
+            }
+            // a CA certificate (never a NOC: "leaf used as authority"), cA = TRUE, keyCertSign, within pathLen
+            Pos::Authority { below } => {
+                ty != NOC && is_ca && ku & 0x0020 != 0 && match path_len { None => true, Some(max) => below <= max }
+            }
+            Pos::LoneRoot => ty != NOC && is_ca && ku & 0x0020 != 0,
+        }
+    }
+
+    /// "the validity periods cover the node's time". `NotAfter == 0` = no expiry. With only a last-known-good
+    /// clock the node's time is a lower bound of the real time, so only expiry can be decided (DESIGN §4/C19).
+    pub(crate) fn validity_ok(p: &Parsed, t: &UtcTime) -> bool {
+        let (Some(not_before), Some(not_after)) = (p.not_before, p.not_after) else {
+            return false;
+        };
+        let reliable = matches!(t, UtcTime::Reliable(_));
+        let now = now_secs();
+        (not_after == 0 || now <= not_after as u64) && (!reliable || now >= not_before as u64)
+    }
+
+    /// "issuer and subject link up": the child's authority key id is the issuer's subject key id.
+    pub(crate) fn link_ok(child: &Parsed, issuer: &Parsed) -> bool {
+        matches!((child.akid, issuer.skid), (Some(Some(a)), Some(s)) if a == s)
+    }
+
+    /// "every certificate is signed by the next one": the child's signature over the child's TBS verifies
+    /// under the issuer's public key (all three must exist and be well-formed).
+    pub(crate) fn signature_ok(child: &Parsed, issuer: &Parsed, c: &MockCrypto) -> bool {
+        child.tbs.is_some()
+            && issuer.pubkey == Some(true)
+            && child.sig == Some(true)
+            && c.import_ok[issuer.id as usize]
+            && c.verify[child.id as usize][issuer.id as usize] == Some(true)
+    }
+
+    pub(crate) fn step_ok(child: &Parsed, issuer: &Parsed, pos: Pos, t: &UtcTime, c: &MockCrypto) -> bool {
+        link_ok(child, issuer) && signature_ok(child, issuer, c) && validity_ok(child, t) && profile_ok(child, pos)
+    }
+
+    /// The whole statement for the chain leaf, [intermediate], root; the root is checked against itself.
+    pub(crate) fn chain_ok(leaf: &Parsed, ica: Option<&Parsed>, root: &Parsed, t: &UtcTime, c: &MockCrypto) -> bool {
+        match ica {
+            None => {
+                step_ok(leaf, root, Pos::Leaf, t, c) && step_ok(root, root, Pos::Authority { below: 0 }, t, c)
+            }
+            Some(ica) => {
+                step_ok(leaf, ica, Pos::Leaf, t, c)
+                    && step_ok(ica, root, Pos::Authority { below: 0 }, t, c)
+                    && step_ok(root, root, Pos::Authority { below: 1 }, t, c)
+            }
+        }
+    }
+
+    fn is_ca_typed(p: &Parsed) -> bool {
+        matches!(p.ctype, Some(t) if t != NOC)
+    }
+
+    // ---------------------------------------------------------------------------------------------
+    // Contracts
+    // ---------------------------------------------------------------------------------------------
+
+    /// `verify_usage` (private): the policy of the certificate's position. The verifier only knows the
+    /// depth: depth 0 is either a leaf or a root validated on its own, depth d > 0 is an authority with d-1
+    /// intermediates below it. Ok <=> the certificate satisfies the policy of a position its depth allows.
+    // TIER: quick
+    // KIND: complete
+    #[kani::proof]
+    #[kani::unwind(4)]
+    #[kani::stub(CertRef::has_critical_future_extension, pf_has_critical_future_extension)]
+    #[kani::stub(CertRef::cert_type, pf_cert_type)]
+    #[kani::stub(CertRef::key_usage, pf_key_usage)]
+    #[kani::stub(CertRef::basic_constraints, pf_basic_constraints)]
+    #[kani::stub(CertRef::ext_key_usage_has_all, pf_ext_key_usage_has_all)]
+    fn c19_verify_usage_contract() {
+        let raw = any_pf(0);
+        let p = parse(&raw);
+        let cert = CertRef::new(TLVElement::new(&raw));
+        let crypto = MockCrypto::any();
+        let depth: u8 = kani::any();
+        let v = CertVerifier { cert: &cert, crypto: &crypto, utc_time: any_time(), depth };
+
+        let ok = v.verify_usage().is_ok();
+
+        let expected = if depth == 0 {
+            profile_ok(&p, Pos::Leaf) || profile_ok(&p, Pos::LoneRoot)
+        } else {
+            profile_ok(&p, Pos::Authority { below: depth - 1 })
+        };
+        kani::assert(ok == expected, "C19.usage.ok_iff_profile_of_position");
+        // single gates, so that a dropped gate is named
+        kani::assert(!ok || p.crit == Some(false), "C19.usage.ok_implies_no_critical_unknown_extension");
+        kani::assert(!ok || depth == 0 || is_ca_typed(&p), "C19.usage.noc_never_an_authority");
+        kani::assert(
+            !ok || is_ca_typed(&p) || matches!(p.basic, Some(Some((false, _)))),
+            "C19.usage.noc_is_not_ca"
+        );
+        kani::assert(
+            !ok || is_ca_typed(&p) || matches!(p.key_usage, Some(Some(k)) if k & 1 != 0),
+            "C19.usage.noc_has_digital_signature"
+        );
+        kani::assert(
+            !ok || is_ca_typed(&p) || matches!(p.eku, Some(Some(m)) if m & 6 == 6),
+            "C19.usage.noc_has_server_and_client_auth"
+        );
+        kani::assert(
+            !ok || !is_ca_typed(&p) || matches!(p.basic, Some(Some((true, _)))),
+            "C19.usage.authority_is_ca"
+        );
+        kani::assert(
+            !ok || !is_ca_typed(&p) || matches!(p.key_usage, Some(Some(k)) if k & 0x20 != 0),
+            "C19.usage.authority_has_key_cert_sign"
+        );
+        kani::assert(
+            !ok || depth == 0 || !matches!(p.basic, Some(Some((_, Some(max)))) if depth - 1 > max),
+            "C19.usage.authority_within_path_len"
+        );
+        kani::assert(crypto.calls.get() == 0, "C19.usage.no_primitive_involved");
+
+        kani::cover!(ok && depth == 0 && !is_ca_typed(&p), "leaf accepted");
+        kani::cover!(ok && depth == 0 && is_ca_typed(&p), "lone root accepted");
+        kani::cover!(ok && depth == 2, "authority above an intermediate accepted");
+        kani::cover!(!ok && depth == 2 && matches!(p.basic, Some(Some((true, Some(0))))), "path length exceeded");
+        kani::cover!(!ok && p.crit == Some(true), "critical extension refused");
+        kani::cover!(!ok && p.crit.is_none(), "unreadable extension refused");
+    }
+
+    /// `add_cert(parent)`: one step of the path, the current certificate is checked against the authority
+    /// above it. Ok <=> link /\ signature /\ validity /\ profile of the position. Because an authority
+    /// follows, a current certificate at depth 0 is the chain's leaf.
+    // TIER: quick
+    // KIND: complete
+    #[kani::proof]
+    #[kani::unwind(4)]
+    #[kani::stub(CertRef::has_critical_future_extension, pf_has_critical_future_extension)]
+    #[kani::stub(CertRef::cert_type, pf_cert_type)]
+    #[kani::stub(CertRef::key_usage, pf_key_usage)]
+    #[kani::stub(CertRef::basic_constraints, pf_basic_constraints)]
+    #[kani::stub(CertRef::ext_key_usage_has_all, pf_ext_key_usage_has_all)]
+    #[kani::stub(CertRef::is_authority, pf_is_authority)]
+    #[kani::stub(CertRef::not_before, pf_not_before)]
+    #[kani::stub(CertRef::not_after, pf_not_after)]
+    #[kani::stub(crate::dm::clusters::time_sync::UtcTime::any_secs, secs_any)]
+    #[kani::stub(crate::dm::clusters::time_sync::UtcTime::reliable_secs, secs_reliable)]
+    #[kani::stub(CertRef::as_asn1, pf_as_asn1)]
+    #[kani::stub(CertRef::pubkey, pf_pubkey)]
+    #[kani::stub(CertRef::signature, pf_signature)]
+    fn c19_add_cert_step_contract() {
+        let (raw_c, raw_p) = (any_pf(0), any_pf(1));
+        let (c, p) = (parse(&raw_c), parse(&raw_p));
+        let child = CertRef::new(TLVElement::new(&raw_c));
+        let parent = CertRef::new(TLVElement::new(&raw_p));
+        let crypto = MockCrypto::any();
+        let t = any_time();
+        let depth: u8 = kani::any();
+        let mut buf = [0u8; 8];
+        let v = CertVerifier { cert: &child, crypto: &crypto, utc_time: t, depth };
+
+        let r = v.add_cert(&parent, &mut buf);
+        let ok = r.is_ok();
+
+        let pos = if depth == 0 { Pos::Leaf } else { Pos::Authority { below: depth - 1 } };
+        kani::assert(!step_ok(&c, &p, pos, &t, &crypto) || ok, "C19.add_cert.valid_step_is_accepted");
+        kani::assert(!ok || link_ok(&c, &p), "C19.add_cert.ok_implies_issuer_link");
+        kani::assert(!ok || signature_ok(&c, &p, &crypto), "C19.add_cert.ok_implies_signature_verified");
+        kani::assert(!ok || validity_ok(&c, &t), "C19.add_cert.ok_implies_validity_covers_time");
+        kani::assert(!ok || c.crit == Some(false), "C19.add_cert.ok_implies_no_critical_unknown_extension");
+        kani::assert(
+            !ok || depth == 0 || profile_ok(&c, pos),
+            "C19.add_cert.ok_implies_authority_profile"
+        );
+        // exact decision outside the class of the finding above (a CA-typed certificate used as leaf)
+        if !(depth == 0 && is_ca_typed(&c)) {
+            kani::assert(ok == step_ok(&c, &p, pos, &t, &crypto), "C19.add_cert.ok_iff_valid_step_when_leaf_is_noc_typed");
+        }
+        // the primitive was asked about this certificate's TBS and signature under the issuer's key, once
+        if ok {
+            kani::assert(crypto.calls.get() == 1 && crypto.log.get()[0] == (0, 0, 1), "C19.add_cert.signature_call_arguments");
+        }
+        // new state: the verifier now stands on the parent, one level up, same clock
+        if let Ok(n) = r {
+            kani::assert(
+                core::ptr::eq(n.cert, &parent) && n.depth == if depth == 255 { 255 } else { depth + 1 } && n.utc_time == t,
+                "C19.add_cert.next_state"
+            );
+        }
+
+        kani::cover!(ok && depth == 0, "leaf step accepted");
+        kani::cover!(ok && depth == 1, "authority step accepted");
+        kani::cover!(!ok && !link_ok(&c, &p), "broken link refused");
+        kani::cover!(!ok && link_ok(&c, &p) && crypto.verify[0][1] == Some(false), "bad signature refused");
+        kani::cover!(!ok && link_ok(&c, &p) && signature_ok(&c, &p, &crypto) && !validity_ok(&c, &t), "expired refused");
+        kani::cover!(ok && matches!(t, UtcTime::LastKnown(_)) && matches!(c.not_before, Some(nb) if nb as u64 > now_secs()), "not-before ignored on last-known-good time");
+
+        // LAST (kani::assert also assumes its condition, so everything above is decided without it):
+        // the chain's leaf must have the leaf profile (NOC, non-CA, digitalSignature, server+client auth).
+        // REFUTED on the current tree - finding F1 (a CA-typed certificate is accepted as leaf).
+        kani::assert(!ok || depth != 0 || profile_ok(&c, Pos::Leaf), "C19.add_cert.ok_implies_leaf_profile");
+    }
+
+    /// `finalise`: the current certificate is the root and must verify against itself. At depth 0 this is
+    /// the validation of a root on its own.
+    // TIER: quick
+    // KIND: complete
+    #[kani::proof]
+    #[kani::unwind(4)]
+    #[kani::stub(CertRef::has_critical_future_extension, pf_has_critical_future_extension)]
+    #[kani::stub(CertRef::cert_type, pf_cert_type)]
+    #[kani::stub(CertRef::key_usage, pf_key_usage)]
+    #[kani::stub(CertRef::basic_constraints, pf_basic_constraints)]
+    #[kani::stub(CertRef::ext_key_usage_has_all, pf_ext_key_usage_has_all)]
+    #[kani::stub(CertRef::is_authority, pf_is_authority)]
+    #[kani::stub(CertRef::not_before, pf_not_before)]
+    #[kani::stub(CertRef::not_after, pf_not_after)]
+    #[kani::stub(crate::dm::clusters::time_sync::UtcTime::any_secs, secs_any)]
+    #[kani::stub(crate::dm::clusters::time_sync::UtcTime::reliable_secs, secs_reliable)]
+    #[kani::stub(CertRef::as_asn1, pf_as_asn1)]
+    #[kani::stub(CertRef::pubkey, pf_pubkey)]
+    #[kani::stub(CertRef::signature, pf_signature)]
+    fn c19_finalise_contract() {
+        let raw = any_pf(2);
+        let p = parse(&raw);
+        let root = CertRef::new(TLVElement::new(&raw));
+        let crypto = MockCrypto::any();
+        let t = any_time();
+        let depth: u8 = kani::any();
+        let mut buf = [0u8; 8];
+        let v = CertVerifier { cert: &root, crypto: &crypto, utc_time: t, depth };
+
+        let ok = v.finalise(&mut buf).is_ok();
+
+        let pos = if depth == 0 { Pos::LoneRoot } else { Pos::Authority { below: depth - 1 } };
+        kani::assert(!step_ok(&p, &p, pos, &t, &crypto) || ok, "C19.finalise.valid_root_is_accepted");
+        kani::assert(!ok || link_ok(&p, &p), "C19.finalise.ok_implies_self_issued");
+        kani::assert(!ok || signature_ok(&p, &p, &crypto), "C19.finalise.ok_implies_self_signed");
+        kani::assert(!ok || validity_ok(&p, &t), "C19.finalise.ok_implies_validity_covers_time");
+        kani::assert(!ok || p.crit == Some(false), "C19.finalise.ok_implies_no_critical_unknown_extension");
+        if ok {
+            kani::assert(crypto.calls.get() == 1 && crypto.log.get()[0] == (2, 2, 2), "C19.finalise.signature_call_arguments");
+        }
+        // exact decision outside the class of finding F1 (a NOC-typed certificate validated on its own)
+        if !(depth == 0 && p.ctype == Some(NOC)) {
+            kani::assert(ok == step_ok(&p, &p, pos, &t, &crypto), "C19.finalise.ok_iff_root_valid_against_itself_unless_lone_noc");
+        }
+
+        kani::cover!(ok && depth == 0, "lone root accepted");
+        kani::cover!(ok && depth == 2, "root of a three-certificate chain accepted");
+        kani::cover!(!ok && link_ok(&p, &p) && crypto.verify[2][2] == Some(false), "root not signed by itself refused");
+        kani::cover!(!ok && !link_ok(&p, &p), "root not issued by itself refused");
+        kani::cover!(ok && depth == 0 && p.ctype == Some(NOC), "self-signed NOC accepted on its own");
+
+        // LAST: a root is a CA certificate (cA = TRUE, keyCertSign, not a NOC).
+        // REFUTED on the current tree - finding F1 (depth 0: a self-signed certificate with the NOC profile passes).
+        kani::assert(!ok || profile_ok(&p, pos), "C19.finalise.ok_implies_root_is_ca");
+    }
+
+    // NOTE: the contract of `UtcTime::{any_secs, reliable_secs}` ("whole seconds of the reading, `reliable_secs` only
+    // for a reliable clock") is an ASSUMED contract: a harness stating it with 64-bit multiplication
+    // (s * 10^6 <= us < (s + 1) * 10^6) did not close within 600 s of CBMC.
+
+    /// The chain as every caller drives it (`Case::validate_certs`, `FailSafe::validate_certs`):
+    /// start at the leaf, `add_cert` each authority, `finalise` on the root; with and without intermediate.
+    // TIER: thorough
+    // KIND: complete
+    #[kani::proof]
+    #[kani::unwind(4)]
+    #[kani::stub(CertRef::has_critical_future_extension, pf_has_critical_future_extension)]
+    #[kani::stub(CertRef::cert_type, pf_cert_type)]
+    #[kani::stub(CertRef::key_usage, pf_key_usage)]
+    #[kani::stub(CertRef::basic_constraints, pf_basic_constraints)]
+    #[kani::stub(CertRef::ext_key_usage_has_all, pf_ext_key_usage_has_all)]
+    #[kani::stub(CertRef::is_authority, pf_is_authority)]
+    #[kani::stub(CertRef::not_before, pf_not_before)]
+    #[kani::stub(CertRef::not_after, pf_not_after)]
+    #[kani::stub(crate::dm::clusters::time_sync::UtcTime::any_secs, secs_any)]
+    #[kani::stub(crate::dm::clusters::time_sync::UtcTime::reliable_secs, secs_reliable)]
+    #[kani::stub(CertRef::as_asn1, pf_as_asn1)]
+    #[kani::stub(CertRef::pubkey, pf_pubkey)]
+    #[kani::stub(CertRef::signature, pf_signature)]
+    fn c19_chain_contract() {
+        let (raw_l, raw_i, raw_r) = (any_pf(0), any_pf(1), any_pf(2));
+        let (l, i, r) = (parse(&raw_l), parse(&raw_i), parse(&raw_r));
+        let leaf = CertRef::new(TLVElement::new(&raw_l));
+        let ica = CertRef::new(TLVElement::new(&raw_i));
+        let root = CertRef::new(TLVElement::new(&raw_r));
+        let crypto = MockCrypto::any();
+        let t = any_time();
+        let with_ica: bool = kani::any();
+        let mut buf = [0u8; 8];
+
+        let run = |buf: &mut [u8]| -> Result<(), Error> {
+            let mut v = leaf.verify_chain_start(&crypto, t);
+            if with_ica {
+                v = v.add_cert(&ica, buf)?;
+            }
+            v.add_cert(&root, buf)?.finalise(buf)
+        };
+        let ok = run(&mut buf).is_ok();
+
+        let io = if with_ica { Some(&i) } else { None };
+        let above_leaf = if with_ica { &i } else { &r };
+        let root_below = if with_ica { 1 } else { 0 };
+
+        kani::assert(!chain_ok(&l, io, &r, &t, &crypto) || ok, "C19.chain.valid_chain_is_accepted");
+        kani::assert(
+            !ok || (link_ok(&l, above_leaf) && (!with_ica || link_ok(&i, &r)) && link_ok(&r, &r)),
+            "C19.chain.ok_implies_every_issuer_link"
+        );
+        kani::assert(
+            !ok || (signature_ok(&l, above_leaf, &crypto) && (!with_ica || signature_ok(&i, &r, &crypto))),
+            "C19.chain.ok_implies_every_signature"
+        );
+        kani::assert(!ok || signature_ok(&r, &r, &crypto), "C19.chain.ok_implies_root_verifies_against_itself");
+        kani::assert(
+            !ok || (validity_ok(&l, &t) && (!with_ica || validity_ok(&i, &t)) && validity_ok(&r, &t)),
+            "C19.chain.ok_implies_every_validity_covers_time"
+        );
+        kani::assert(
+            !ok || (l.crit == Some(false) && (!with_ica || i.crit == Some(false)) && r.crit == Some(false)),
+            "C19.chain.ok_implies_no_critical_unknown_extension"
+        );
+        kani::assert(
+            !ok || ((!with_ica || profile_ok(&i, Pos::Authority { below: 0 })) && profile_ok(&r, Pos::Authority { below: root_below })),
+            "C19.chain.ok_implies_authorities_are_ca_within_path_len"
+        );
+        if !is_ca_typed(&l) {
+            kani::assert(ok == chain_ok(&l, io, &r, &t, &crypto), "C19.chain.ok_iff_valid_when_leaf_is_noc_typed");
+        }
+        if ok {
+            let log = crypto.log.get();
+            let expect_calls = if with_ica { 3 } else { 2 };
+            let args_ok = if with_ica {
+                log[0] == (0, 0, 1) && log[1] == (1, 1, 2) && log[2] == (2, 2, 2)
+            } else {
+                log[0] == (0, 0, 2) && log[1] == (2, 2, 2)
+            };
+            kani::assert(crypto.calls.get() == expect_calls && args_ok, "C19.chain.each_signature_checked_under_issuer_key");
+        }
+
+        kani::cover!(ok && with_ica, "three-certificate chain accepted");
+        kani::cover!(ok && !with_ica, "two-certificate chain accepted");
+        kani::cover!(ok && with_ica && matches!(r.basic, Some(Some((true, Some(1))))), "root pathLen 1 admits one intermediate");
+        kani::cover!(!ok && with_ica && matches!(r.basic, Some(Some((true, Some(0))))) && step_ok(&l, &i, Pos::Leaf, &t, &crypto) && step_ok(&i, &r, Pos::Authority { below: 0 }, &t, &crypto), "root pathLen 0 refuses an intermediate");
+        kani::cover!(!ok && l.ctype == Some(NOC) && i.ctype == Some(NOC) && with_ica, "leaf used as authority refused");
+
+        // LAST: REFUTED on the current tree - finding F1 (a CA-typed certificate is accepted as the leaf of a chain).
+        kani::assert(!ok || profile_ok(&l, Pos::Leaf), "C19.chain.ok_implies_leaf_profile");
+    }
+}
+
+pub(crate) mod c01 {
+    use super::c19::*;
+    use super::*;
+    use crate::fabric::{Fabric, Fabrics};
+    use crate::sc::case::casep::CaseP;
+
+    static mut FABRIC_ID: u64 = 0;
+    static mut ROOT_RAW: [u8; PF_LEN] = [0; PF_LEN];
+
+    fn fabric_id_of(_this: &Fabric) -> u64 {
+        unsafe { FABRIC_ID }
+    }
+
+    fn root_ca_of(_this: &Fabric) -> &[u8] {
+        unsafe { &*core::ptr::addr_of!(ROOT_RAW) }
+    }
+
+    /// Ok => the NOC names this fabric, the ICAC (if it names a fabric at all) names this fabric, and the chain
+    /// NOC [-> ICAC] -> root verifies step by step against THIS fabric's root, which verifies against itself.
+    /// Conversely a valid chain of this fabric is accepted.
+    // TIER: thorough
+    // KIND: complete
+    #[kani::proof]
+    #[kani::unwind(4)]
+    #[kani::stub(CertRef::has_critical_future_extension, pf_has_critical_future_extension)]
+    #[kani::stub(CertRef::cert_type, pf_cert_type)]
+    #[kani::stub(CertRef::key_usage, pf_key_usage)]
+    #[kani::stub(CertRef::basic_constraints, pf_basic_constraints)]
+    #[kani::stub(CertRef::ext_key_usage_has_all, pf_ext_key_usage_has_all)]
+    #[kani::stub(CertRef::is_authority, pf_is_authority)]
+    #[kani::stub(CertRef::not_before, pf_not_before)]
+    #[kani::stub(CertRef::not_after, pf_not_after)]
+    #[kani::stub(crate::dm::clusters::time_sync::UtcTime::any_secs, secs_any)]
+    #[kani::stub(crate::dm::clusters::time_sync::UtcTime::reliable_secs, secs_reliable)]
+    #[kani::stub(CertRef::as_asn1, pf_as_asn1)]
+    #[kani::stub(CertRef::pubkey, pf_pubkey)]
+    #[kani::stub(CertRef::signature, pf_signature)]
+    #[kani::stub(CertRef::get_fabric_id, pf_get_fabric_id)]
+    #[kani::stub(crate::fabric::Fabric::fabric_id, fabric_id_of)]
+    #[kani::stub(crate::fabric::Fabric::root_ca, root_ca_of)]
+    fn c01_validate_certs_contract() {
+        let (raw_l, raw_i, raw_r) = (any_pf(0), any_pf(1), any_pf(2));
+        let (l, i, r) = (parse(&raw_l), parse(&raw_i), parse(&raw_r));
+        let fid: u64 = kani::any();
+        unsafe {
+            ROOT_RAW = raw_r;
+            FABRIC_ID = fid;
+        }
+        let noc = CertRef::new(TLVElement::new(&raw_l));
+        let ica = CertRef::new(TLVElement::new(&raw_i));
+        let with_ica: bool = kani::any();
+        let crypto = MockCrypto::any();
+        let t = any_time();
+        let mut buf = [0u8; 8];
+
+        let mut fabrics = Fabrics::new();
+        let Ok(fabric) = fabrics.add_with_post_init(|_| Ok(())) else {
+            kani::assert(false, "C01.validate_certs.harness_fabric_created");
+            return;
+        };
+        let case = CaseP::<MockCrypto>::new();
+
+        let res = case.validate_certs(&crypto, t, fabric, &noc, if with_ica { Some(&ica) } else { None }, &mut buf);
+        let ok = res.is_ok();
+
+        let io = if with_ica { Some(&i) } else { None };
+        let above_leaf = if with_ica { &i } else { &r };
+        let root_below = if with_ica { 1 } else { 0 };
+        let noc_fabric_ok = l.fabric_id == Some(fid);
+        let ica_fabric_ok = !with_ica || match i.fabric_id { Some(f) => f == fid, None => true };
+
+        kani::assert(!ok || noc_fabric_ok, "C01.validate_certs.ok_implies_noc_carries_this_fabric_id");
+        kani::assert(!ok || ica_fabric_ok, "C01.validate_certs.ok_implies_icac_fabric_id_if_any_is_this_fabrics");
+        kani::assert(
+            !ok || (link_ok(&l, above_leaf) && signature_ok(&l, above_leaf, &crypto) && validity_ok(&l, &t) && l.crit == Some(false)),
+            "C01.validate_certs.ok_implies_noc_step_verified"
+        );
+        kani::assert(
+            !ok || !with_ica || step_ok(&i, &r, Pos::Authority { below: 0 }, &t, &crypto),
+            "C01.validate_certs.ok_implies_icac_step_verified_against_this_root"
+        );
+        kani::assert(
+            !ok || step_ok(&r, &r, Pos::Authority { below: root_below }, &t, &crypto),
+            "C01.validate_certs.ok_implies_this_fabrics_root_verifies_against_itself"
+        );
+        if ok {
+            let log = crypto.log.get();
+            let args_ok = if with_ica {
+                crypto.calls.get() == 3 && log[0] == (0, 0, 1) && log[1] == (1, 1, 2) && log[2] == (2, 2, 2)
+            } else {
+                crypto.calls.get() == 2 && log[0] == (0, 0, 2) && log[1] == (2, 2, 2)
+            };
+            kani::assert(args_ok, "C01.validate_certs.ok_implies_signatures_checked_up_to_this_fabrics_root_key");
+        }
+        kani::assert(
+            !(chain_ok(&l, io, &r, &t, &crypto) && noc_fabric_ok && ica_fabric_ok) || ok,
+            "C01.validate_certs.valid_chain_of_this_fabric_is_accepted"
+        );
+        if !matches!(l.ctype, Some(ty) if ty != 0) {
+            kani::assert(
+                ok == (chain_ok(&l, io, &r, &t, &crypto) && noc_fabric_ok && ica_fabric_ok),
+                "C01.validate_certs.ok_iff_valid_chain_of_this_fabric_when_leaf_is_noc_typed"
+            );
+        }
+
+        kani::cover!(ok && with_ica && i.fabric_id.is_none(), "accepted, ICAC without fabric id");
+        kani::cover!(ok && with_ica && i.fabric_id.is_some(), "accepted, ICAC with fabric id");
+        kani::cover!(ok && !with_ica, "accepted without ICAC");
+        kani::cover!(!ok && chain_ok(&l, io, &r, &t, &crypto) && !noc_fabric_ok, "valid chain of another fabric refused");
+        kani::cover!(!ok && chain_ok(&l, io, &r, &t, &crypto) && noc_fabric_ok && !ica_fabric_ok, "ICAC of another fabric refused");
+
+        // LAST: the leaf of a CASE chain is a NOC (non-CA, digitalSignature, server+client auth).
+        // REFUTED on the current tree - finding F1 of C19 (e.g. the fabric's own ICAC presented as "NOC").
+        kani::assert(!ok || profile_ok(&l, Pos::Leaf), "C01.validate_certs.ok_implies_leaf_has_noc_profile");
+    }
+}
